@@ -47,10 +47,10 @@ class NodeStub:
         pass
 
     def step(self, step_state):
-        k = len(self.step_calls)
         self.step_calls.append(step_state)
-        out = ("output", self.name, step_state.seq if not isinstance(step_state.seq, SeqD) else int(step_state.seq), k)
-        new_state = ("state", self.name, k)
+        q = int(step_state.seq)
+        out = ("output", self.name, q)  # deterministic function of what it is handed (JAX purity)
+        new_state = ("state", self.name, q)
         return step_state.replace(state=new_state), out
 
 
